@@ -165,4 +165,56 @@ theorem export_ports_tls_items (o : Opts) (fk : Option (List Keylog.Key)) (xs : 
     have := ((convOk_all H P info o xs s hs).pkts p hmem).2.2
     rw [hc] at this; cases this
 
+-- ====================================================================== 4. C07: times and ends
+/-- **C07, whole program, items level.** For every exported TLS conversation `s` (first packet `p0`, a TCP packet of
+    the capture): its frames are `addressed` abstract frames `fs`; every frame carries the IP version of `p0` and runs
+    between the two ends as `p0` shows them — server-side frames from the server's IP and MAC (the MAC `p0` has on the
+    server's side) to the client's, client-side frames the other way round —; and every DATA frame (PSH|ACK) carries the
+    capture time of a packet `q` of that conversation which travels in the frame's direction and is a carrier of a record
+    released for that direction (`connRecs`; carriers = the packets whose bytes overlap the record:
+    `Props.C05.metadata_is_overlap`). -/
+theorem export_time_and_ends_tls_items (o : Opts) (fk : Option (List Keylog.Key)) (xs : List (Item Keylog.Key)) :
+    ∀ s ∈ tlsConvs H P info o xs, ∃ (p0 : Pkt) (fs : List TcpOut.Frame),
+      p0 ∈ tcpView o xs ∧ s.st.pkts.head? = some p0 ∧ (s.server, s.client) = rolesOf o.ports p0 ∧
+      convFrames H P info (keysOf fk xs) s = fs.map (Pipeline.addressed o s.st) ∧
+      (∀ f ∈ fs,
+        (Pipeline.addressed o s.st f).ipv6 = (info p0.tag).ipv6 ∧
+        (Pipeline.addressed o s.st f).ts = f.ts ∧ (Pipeline.addressed o s.st f).payload = f.payload ∧
+        let sMac := if s.server == p0.src then (info p0.tag).srcMac else (info p0.tag).dstMac
+        let cMac := if s.server == p0.src then (info p0.tag).dstMac else (info p0.tag).srcMac
+        (f.fromServer = true → (Pipeline.addressed o s.st f).src.ip = s.server.ip ∧
+          (Pipeline.addressed o s.st f).dst = s.client ∧ (Pipeline.addressed o s.st f).srcMac = sMac ∧
+          (Pipeline.addressed o s.st f).dstMac = cMac) ∧
+        (f.fromServer = false → (Pipeline.addressed o s.st f).src = s.client ∧
+          (Pipeline.addressed o s.st f).dst.ip = s.server.ip ∧ (Pipeline.addressed o s.st f).srcMac = cMac ∧
+          (Pipeline.addressed o s.st f).dstMac = sMac)) ∧
+      (∀ f ∈ fs, f.flags = 0x18 → ∃ q ∈ s.st.pkts, q ∈ tcpView o xs ∧ f.ts = (info q.tag).ts ∧
+        (q.src == s.server) = f.fromServer ∧
+        ∃ r ∈ connRecs info s.st, r.2 = f.fromServer ∧ q.tag ∈ r.1.carriers) := by
+  intro s hs
+  have hok := convOk_all H P info o xs s hs
+  obtain ⟨p0, rest, h4, h5, h6, h7, h8, h9⟩ := hok.first
+  have hsome := (connOut_never_raises H P info s.st (keysOf fk xs)).2.2
+  rw [connOut_eq, Option.isSome_map] at hsome
+  obtain ⟨fs, hb⟩ := Option.isSome_iff_exists.mp hsome
+  refine ⟨p0, fs, (hok.pkts p0 (by rw [h4]; simp)).1, by rw [h4]; rfl, h6, ?_, ?_, ?_⟩
+  · simp only [convFrames, connOut_eq, hb, Option.map_some, Option.getD_some]
+    rw [hok.opts]
+  · intro f _
+    simp only [Pipeline.addressed, hok.server, hok.client, h7, h8, h9]
+    cases f.fromServer <;> simp
+  · intro f hf hflags
+    have hd : (f.fromServer, f.ts, f.payload) ∈ TcpOut.dataFrames fs := by
+      simp only [TcpOut.dataFrames, List.mem_filterMap]
+      exact ⟨f, hf, by simp [TcpOut.Frame.data?, hflags]⟩
+    obtain ⟨r, hr, ps', _, j, _, hts, hdir⟩ := Props.C07.out_ts_from_carrier _ _ hb _ _ _ hd
+    obtain ⟨e, he, rfl⟩ := List.mem_map.mp hr
+    have horig := Props.C07.entry_origin (Pipeline.ops H P (keysOf fk xs)) s.st.opts.metadata (connRecs info s.st) e he
+    have hmem : f.ts ∈ (Lemmas.Pipeline.toRec (fun id => (info id).ts) e).ts := List.mem_of_getElem? hts
+    simp only [Lemmas.Pipeline.toRec, List.mem_map] at hmem
+    obtain ⟨id, hid, hidts⟩ := hmem
+    obtain ⟨q, hq, hqt, hqd⟩ := released_carrier_tags info s.st.server s.st.pkts (e.record, e.fromServer) horig id hid
+    refine ⟨q, hq, (hok.pkts q hq).1, by rw [hqt]; exact hidts.symm, ?_, (e.record, e.fromServer), horig, hdir, by rw [hqt]; exact hid⟩
+    rw [← hok.server, hqd]; exact hdir
+
 end TLX.Props.ExportProps
